@@ -151,14 +151,21 @@ def run_spec(spec, points, tier, visit, quick_slice=0, honesty=False, want_steps
                         visit(cfg, gen, comb, t, res, 'scalar')
                     # one array call over all in-domain points (default generator only)
                     if gen[0] == 'default' and len(combs) > 1:
-                        pi = cm.PointInfo()
-                        pi.x = np.array([c.x for c in combs])
-                        res = cm.run_config(fun, cfg, gen, pi, None)
-                        ncalls += 1
-                        for i, comb in enumerate(combs):
-                            t = terms(cfg, gen, comb)
-                            if t is not None:
-                                visit(cfg, gen, comb, t, res, ('array', i))
+                        xs = np.array([c.x for c in combs])
+                        forms = [('array', xs)]
+                        if len(combs) >= 4:
+                            # the same points as a Fortran-ordered 2-d array (element [i, j] <-> flat index i*k+j)
+                            k = len(combs) // 2
+                            forms.append(('arrayF', np.asfortranarray(xs[:2 * k].reshape(2, k))))
+                        for fname_, xa in forms:
+                            pi = cm.PointInfo()
+                            pi.x = xa
+                            res = cm.run_config(fun, cfg, gen, pi, None)
+                            ncalls += 1
+                            for i, comb in enumerate(combs[:xa.size]):
+                                t = terms(cfg, gen, comb)
+                                if t is not None:
+                                    visit(cfg, gen, comb, t, res, (fname_, i))
     return ncalls
 
 
